@@ -599,6 +599,10 @@ func (x *Exec) step(i int, st *Step) bool {
 		return x.diverge(i, fmt.Sprintf("process %s is not at a gate, step expects it at %q", st.P, st.At))
 	}
 	if st.At != "" && st.At != g.Site {
+		if strings.HasPrefix(st.At, "abort.") && strings.HasPrefix(g.Site, "abort.") {
+			// Go chose the other ready case of the select in the abort goroutine
+			return x.diverge(i, "select-race: "+fmt.Sprintf("process %s is at %q, step expects %q", st.P, g.Site, st.At))
+		}
 		return x.diverge(i, fmt.Sprintf("process %s is at %q, step expects %q", st.P, g.Site, st.At))
 	}
 	x.emit(sim.Ev{"e": "step", "i": i + 1, "p": st.P, "at": g.Site, "o": st.O, "n": st.N})
